@@ -263,3 +263,25 @@ class LModelStruct(LModel):
 class LModelDict(LModel):
     def __init__(self, data_cfg: dict, width: int = 1):
         self.data_cfg, self.width = data_cfg, width
+
+
+@dataclass
+class Item:
+    x: int = 1
+    tag: str = "t"
+
+
+@dataclass
+class G4:
+    a: int = 1
+    m: Dict[str, Item] = field(default_factory=dict)
+
+
+class G4Class:
+    def __init__(self, a: int = 1, m: Dict[str, Item] = {}):  # noqa: B006
+        self.a, self.m = a, m
+
+
+def g4_default_instance():
+    """The defaults of group G4 stated the way the dataclass style offers: an instance whose dict member holds dataclass instances."""
+    return G4(a=2, m={"k": Item(x=6)})
